@@ -183,12 +183,6 @@ int main(void)
 			if ((p - 1) / IPG == g && IN.used[p])
 				IN.gd[g * DSZ + 18] &= ~0x01;
 #endif
-#ifdef UG
-	/* BOUND (-DUG=g): only group g may carry bg_flags (INODE_UNINIT ...); the other groups' flag words are 0 (keeps the inode loop's control concrete up to group g) */
-	for (g = 0; g < NG; g++)
-		if (g != UG)
-			IN.gd[g * DSZ + 18] = IN.gd[g * DSZ + 19] = 0;
-#endif
 	for (p = 0; p < VF_NPOS; p++)
 		ASSUME(IN.used[p] <= 1 && IN.dir[p] <= 1 && IN.disk[p] <= 1);
 	/* ---- independent reference ---- */
